@@ -81,13 +81,17 @@ func (q rangeQuery) String() string {
 }
 
 func (q rangeQuery) CacheKey() uint64 {
-	// The response depends on the end time only through the last evaluated grid point (start + k*step <= end),
-	// rounding the end to the step would make two queries that differ by that grid point share one cache entry.
-	last := q.r.End
-	if q.r.Step > 0 && !q.r.End.Before(q.r.Start) {
-		last = q.r.Start.Add(q.r.End.Sub(q.r.Start) / q.r.Step * q.r.Step)
+	// The response depends on the end time only through the number of evaluated grid points (start + k*step <= end),
+	// rounding the end to the step would make two queries that differ by the last grid point share one cache entry.
+	// Start and end are taken with the precision they are sent with (see formatTime), so that two requests the server
+	// cannot tell apart always share an entry.
+	start := float64(q.r.Start.Unix()) + float64(q.r.Start.Nanosecond())/1e9
+	end := float64(q.r.End.Unix()) + float64(q.r.End.Nanosecond())/1e9
+	var points int64
+	if q.r.Step > 0 && end >= start {
+		points = int64((end - start) / q.r.Step.Seconds())
 	}
-	return hash(q.prom.unsafeURI, q.Endpoint(), q.expr, q.r.Start.Format(time.RFC3339), last.Format(time.RFC3339Nano), output.HumanizeDuration(q.r.Step))
+	return hash(q.prom.unsafeURI, q.Endpoint(), q.expr, formatTime(q.r.Start), strconv.FormatInt(points, 10), output.HumanizeDuration(q.r.Step))
 }
 
 func (q rangeQuery) CacheTTL() time.Duration {
